@@ -21,12 +21,18 @@ type c18Params struct {
 	Seed    uint32 `json:"request_id_seed"` // first request ids are seed+1, ...
 	Script  bool   `json:"script"`          // the server's behaviour per response is enumerated
 	Delay   bool   `json:"delay_bounded"`
+	Follow  bool   `json:"follow_up"` // every caller sends a second request once its first call has returned
 }
 
 type c18Call struct {
 	err   error
 	got   uint32 // node id echoed in the response the caller was handed
 	calls int    // how many times the handler ran
+	// the follow-up request (node 2000+i), answered at once
+	sent2  bool
+	err2   error
+	got2   uint32
+	calls2 int
 }
 
 type c18Obs struct {
@@ -38,7 +44,8 @@ type c18Obs struct {
 
 var c18obs *c18Obs
 
-var c18Variants = []string{"ok", "drop", "dup", "fault", "wrongtype"}
+// "late": the response arrives at the very instant the caller's timeout (2 s + 250 ms leniency) fires
+var c18Variants = []string{"ok", "drop", "dup", "fault", "wrongtype", "late"}
 
 func c18Body(p c18Params) func() {
 	return func() {
@@ -47,7 +54,13 @@ func c18Body(p c18Params) func() {
 		bg := context.Background()
 		var pending []*uasc.MessageBody
 		srv := &echoServer{cfg: noneCfg(3600000, 0)}
+		round1 := 0
 		srv.respond = func(s *echoServer, ctx context.Context, msg *uasc.MessageBody) {
+			if round1 >= p.Callers {
+				s.answer(ctx, msg) // follow-up requests are answered at once
+				return
+			}
+			round1++
 			pending = append(pending, msg)
 			if len(pending) < p.Callers {
 				return
@@ -71,7 +84,11 @@ func c18Body(p c18Params) func() {
 				good := &ua.ReadResponse{ResponseHeader: respHeader(h), Results: []*ua.DataValue{{EncodingMask: ua.DataValueValue, Value: ua.MustVariant(id)}}, DiagnosticInfos: []*ua.DiagnosticInfo{}}
 				v := "ok"
 				if p.Script {
-					v = c18Variants[vrt.Choose("c18-variant", len(c18Variants), make([]int, len(c18Variants)))]
+					nv := len(c18Variants)
+					if !p.Follow {
+						nv-- // "late" only matters to a later request
+					}
+					v = c18Variants[vrt.Choose("c18-variant", nv, make([]int, nv))]
 				}
 				obs.script += fmt.Sprintf("%d:%s ", id, v)
 				switch v {
@@ -81,6 +98,11 @@ func c18Body(p c18Params) func() {
 				case "dup":
 					s.sc.SendResponseWithContext(ctx, m.RequestID, good)
 					s.sc.SendResponseWithContext(ctx, m.RequestID, good)
+				case "late":
+					go func() {
+						time.Sleep(2*time.Second + 250*time.Millisecond)
+						s.sc.SendResponseWithContext(ctx, m.RequestID, good)
+					}()
 				case "fault":
 					hd := respHeader(h)
 					hd.ServiceResult = ua.StatusBadNodeIDUnknown
@@ -117,6 +139,23 @@ func c18Body(p c18Params) func() {
 					}
 					return nil
 				})
+				if !p.Follow {
+					return
+				}
+				rq2 := readReq(0)
+				rq2.NodesToRead[0].NodeID = ua.NewNumericNodeID(0, uint32(2000+i))
+				c.sent2 = true
+				c.err2 = sc.SendRequest(bg, rq2, nil, func(v ua.Response) error {
+					c.calls2++
+					var res *ua.ReadResponse
+					if err := opcua.VerifSafeAssign(v, &res); err != nil {
+						return err
+					}
+					if len(res.Results) == 1 && res.Results[0].Value != nil {
+						c.got2, _ = res.Results[0].Value.Value().(uint32)
+					}
+					return nil
+				})
 			}(i)
 		}
 		wg.Wait()
@@ -144,6 +183,9 @@ func c18Check(p c18Params) func(x *vrt.Exec) (string, string, string) {
 		detail := out
 		for i, c := range o.calls {
 			detail += fmt.Sprintf("\n caller %d (node %d): err=%v, response carried node %d, handler ran %d times", i, 1000+i, c.err, c.got, c.calls)
+			if c.sent2 {
+				detail += fmt.Sprintf("; follow-up (node %d): err=%v, response carried node %d, handler ran %d times", 2000+i, c.err2, c.got2, c.calls2)
+			}
 		}
 		if !o.done {
 			return out, tag + "/scenario-did-not-finish", detail
@@ -159,6 +201,12 @@ func c18Check(p c18Params) func(x *vrt.Exec) (string, string, string) {
 				return out, tag + "/response-handed-over-twice", detail
 			case c.got != 0 && c.got != want:
 				return out, tag + "/handed-another-request's-response", detail
+			case c.sent2 && c.err2 == nil && c.calls2 == 0:
+				return out, tag + "/follow-up/success-without-a-response", detail
+			case c.sent2 && c.got2 != 0 && c.got2 != want+1000:
+				return out, tag + "/follow-up/handed-another-request's-response", detail
+			case c.calls2 > 1:
+				return out, tag + "/follow-up/response-handed-over-twice", detail
 			}
 		}
 		if o.handlers != 0 {
@@ -172,19 +220,22 @@ func c18Scenarios(thorough bool) []driver.Scenario {
 	var out []driver.Scenario
 	add := func(p c18Params, bound int) {
 		out = append(out, driver.Scenario{
-			Name:   fmt.Sprintf("c18/callers=%d/seed=%d/script=%v/delay_bounded=%v", p.Callers, p.Seed, p.Script, p.Delay),
+			Name:   fmt.Sprintf("c18/callers=%d/seed=%d/script=%v/delay_bounded=%v/follow_up=%v", p.Callers, p.Seed, p.Script, p.Delay, p.Follow),
 			Params: p, Cfg: vrt.Config{Horizon: int64(10 * time.Minute), SelectDeviations: true, DelayBounded: p.Delay},
 			Body: c18Body(p), Check: c18Check(p), Bound: bound, NeedsConflict: true,
 		})
 	}
 	if thorough {
 		add(c18Params{Callers: 2, Seed: 1, Script: true}, 1)
+		add(c18Params{Callers: 1, Seed: 1, Script: true, Follow: true}, 2)
+		add(c18Params{Callers: 2, Seed: 1, Script: true, Follow: true}, 0)
 		add(c18Params{Callers: 2, Seed: 4294967293, Script: true}, 1)
 		add(c18Params{Callers: 3, Seed: 1, Script: false}, 2)
 		add(c18Params{Callers: 3, Seed: 4294967293, Script: true}, 0)
 		add(c18Params{Callers: 4, Seed: 1, Script: false}, 1)
 	} else {
 		add(c18Params{Callers: 2, Seed: 4294967293, Script: true}, 0)
+		add(c18Params{Callers: 1, Seed: 1, Script: true, Follow: true}, 1)
 		add(c18Params{Callers: 2, Seed: 1, Script: false}, 1)
 		add(c18Params{Callers: 3, Seed: 4294967293, Script: false, Delay: true}, 2)
 		add(c18Params{Callers: 2, Seed: 1, Script: true, Delay: true}, 1)
